@@ -165,6 +165,26 @@ impl<'s> SerializerConfig<'s> {
 	}
 }
 
+#[cfg(ten0_serde_avro_fast_verif)]
+impl SerializerConfig<'_> {
+	/// Verification hook (only with `--cfg ten0_serde_avro_fast_verif`): `(len, capacity)` of
+	/// every pooled field-reordering buffer, and of every pooled "super buffer"
+	pub fn verif_pool_snapshot(&self) -> (Vec<(usize, usize)>, Vec<(usize, usize)>) {
+		(
+			self.buffers
+				.field_reordering_buffers
+				.iter()
+				.map(|b| (b.len(), b.capacity()))
+				.collect(),
+			self.buffers
+				.field_reordering_super_buffers
+				.iter()
+				.map(|b| (b.len(), b.capacity()))
+				.collect(),
+		)
+	}
+}
+
 impl<'c, 's, W: std::io::Write> SerializerState<'c, 's, W> {
 	/// Build a `SerializerState` from a writer and a `SerializerConfig`.
 	///
